@@ -175,7 +175,7 @@ theorem exec_accLe (now : Time) (c : Call) (d : Db) (sq : Seqs) :
     split at he <;> (cases he; exact AccLe.refl _)
 
 /-- Every program respects it. -/
-theorem run_accLe {α : Type} (now : Time) (hn : String) (f : Option Fault) (p : Prog α) (st : RunSt) :
+theorem run_accLe {α : Type} (now : Time) (hn : String) (f : Faults) (p : Prog α) (st : RunSt) :
     AccLe st.db.accounts (run now hn f p st).2.db.accounts := by
   have hall : p.All (fun _ => True) := by
     induction p with
@@ -187,7 +187,7 @@ theorem run_accLe {α : Type} (now : Time) (hn : String) (f : Option Fault) (p :
     (fun c d sq _ => ⟨fun _ _ _ => AccLe.refl _, fun sq' r d' he => exec_accLe now c d sq sq' r d' he⟩) p hall st
 
 /-- Every write operation respects it, with or without faults. -/
-theorem forgeLog_accLe (strict : Bool) (op : Op) (f : Option Fault) (cf : Bool) (s : State) :
+theorem forgeLog_accLe (strict : Bool) (op : Op) (f : Faults) (cf : Bool) (s : State) :
     AccLe s.db.accounts (forgeLog strict op f cf s).state.db.accounts := by
   rcases forgeLog_ending strict op f cf s with ⟨hu, _, _⟩ | ⟨st0, st, log, hn, f', n, _, h0, _, hrun, hc⟩
   · rw [hu]; exact AccLe.refl _
